@@ -120,3 +120,30 @@ Example C05_example :
   dispatch {| m_openid := false; m_kerberos := false; m_local := true; m_ntlm := false |}
     [s_Basic ++ [x20; x4d; x54; x6f; x7a]] (Some ([x31], [x33])) (BkBasic true) = Handler (Some [x31]).
 Proof. vm_compute. reflexivity. Qed.
+
+(** The decisions of the transcribed functions, as the source has them now (regenerated by the
+    translator: conditions, case labels, returns, branches, go and defer statements in source order).
+    The model is a transcription of exactly this text. *)
+Theorem C05_decisions_as_transcribed :
+  DECISIONS_BasicAuth =
+    [[x72; x65; x74; x75; x72; x6e; x20; x3c; x2a; x61; x73; x74; x2e; x46; x75; x6e; x63; x4c; x69; x74; x3e] (* return <*ast.FuncLit> *);
+     [x69; x66; x20; x6f; x6b] (* if ok *);
+     [x69; x66; x20; x21; x61; x75; x74; x68; x65; x6e; x74; x69; x63; x61; x74; x65; x64] (* if !authenticated *);
+     [x72; x65; x74; x75; x72; x6e] (* return *)] /\
+  DECISIONS_NTLMauthenticate =
+    [[x69; x66; x20; x68; x2e; x53; x6f; x63; x6b; x65; x74; x41; x64; x64; x72; x65; x73; x73; x3d; x3d; x22; x22] (* if h.SocketAddress=="" *);
+     [x72; x65; x74; x75; x72; x6e; x20; x66; x61; x6c; x73; x65; x2c; x22; x22] (* return false,"" *);
+     [x72; x65; x74; x75; x72; x6e; x20; x6e; x65; x74; x2e; x44; x69; x61; x6c; x28; x70; x72; x6f; x74; x6f; x63; x6f; x6c; x47; x72; x70; x63; x2c; x61; x64; x64; x72; x29] (* return net.Dial(protocolGrpc,addr) *);
+     [x69; x66; x20; x65; x72; x72; x21; x3d; x6e; x69; x6c] (* if err!=nil *);
+     [x72; x65; x74; x75; x72; x6e; x20; x66; x61; x6c; x73; x65; x2c; x22; x22] (* return false,"" *);
+     [x64; x65; x66; x65; x72; x20; x63; x6f; x6e; x6e; x2e; x43; x6c; x6f; x73; x65] (* defer conn.Close *);
+     [x64; x65; x66; x65; x72; x20; x63; x61; x6e; x63; x65; x6c] (* defer cancel *);
+     [x69; x66; x20; x65; x72; x72; x21; x3d; x6e; x69; x6c] (* if err!=nil *);
+     [x72; x65; x74; x75; x72; x6e; x20; x66; x61; x6c; x73; x65; x2c; x22; x22] (* return false,"" *);
+     [x69; x66; x20; x72; x65; x73; x2e; x4e; x74; x6c; x6d; x4d; x65; x73; x73; x61; x67; x65; x21; x3d; x22; x22] (* if res.NtlmMessage!="" *);
+     [x72; x65; x74; x75; x72; x6e; x20; x66; x61; x6c; x73; x65; x2c; x22; x22] (* return false,"" *);
+     [x69; x66; x20; x21; x72; x65; x73; x2e; x41; x75; x74; x68; x65; x6e; x74; x69; x63; x61; x74; x65; x64] (* if !res.Authenticated *);
+     [x72; x65; x74; x75; x72; x6e; x20; x66; x61; x6c; x73; x65; x2c; x22; x22] (* return false,"" *);
+     [x72; x65; x74; x75; x72; x6e; x20; x72; x65; x73; x2e; x41; x75; x74; x68; x65; x6e; x74; x69; x63; x61; x74; x65; x64; x2c; x72; x65; x73; x2e; x55; x73; x65; x72; x6e; x61; x6d; x65] (* return res.Authenticated,res.Username *)].
+Proof. vm_compute. repeat split; reflexivity. Qed.
+Print Assumptions C05_decisions_as_transcribed.
